@@ -109,7 +109,7 @@ impl<'tcx> M<'tcx> {
             }
         }
         let m = name.rsplit("::").next()?.split('<').next()?;
-        let t0 = peel_refs(vals.first()?.1);
+        let t0 = vals.first().map_or(ret, |x| peel_refs(x.1));
         let n = |x: i128| V::Int(int_norm(tcx, ret, x));
         let b = |x: bool| V::Int(x as i128);
         Some(match (m, ints.as_slice()) {
@@ -143,6 +143,17 @@ impl<'tcx> M<'tcx> {
             }
             ("zero", []) if ret.is_integral() => n(0),
             ("one", []) if ret.is_integral() => n(1),
+            // Zero::zero() / One::one() of the float types are the constants 0.0 / 1.0 (so that arithmetic on them folds like on literals)
+            ("zero" | "one", []) if matches!(ret.kind(), ty::Float(_)) && (name.contains("Zero::zero<") || name.contains("One::one<")) => {
+                let ty::Float(ft) = ret.kind() else { return None };
+                let one = m == "one";
+                let bits: u128 = match ft.bit_width() {
+                    32 => (if one { 1.0f32 } else { 0.0f32 }).to_bits() as u128,
+                    64 => (if one { 1.0f64 } else { 0.0f64 }).to_bits() as u128,
+                    _ => return None,
+                };
+                V::T(self.terms.mk(Term::CFloat(bits, ft.bit_width() as u32)))
+            }
             _ => return None,
         })
     }
@@ -658,6 +669,21 @@ impl<'tcx> M<'tcx> {
         }
         if is_manually_drop(tcx, t) {
             return Ok(());
+        }
+        // a modelled Zip owns its parked operands: dropping it drops them (by their own types)
+        if matches!(t.kind(), ty::Adt(..)) {
+            if let Ok(V::Obj(kind, xs)) = self.load(p, t) {
+                if kind == "zipg" || kind == "zipx" {
+                    for x in xs {
+                        if let V::Ptr(q) = x {
+                            if let Some(qt) = self.alloc_tys.get(&q.alloc).copied() {
+                                self.drop_at(&q, qt)?;
+                            }
+                        }
+                    }
+                }
+                return Ok(());
+            }
         }
         if is_tok(tcx, t) {
             let v = self.load(p, t)?;
